@@ -56,6 +56,9 @@ func contractTags(fc *FuncContract) map[string]bool {
 		for _, c := range l.Invariants {
 			add(c)
 		}
+		for _, c := range l.Progress {
+			add(c)
+		}
 	}
 	if fc.Panics != nil {
 		add(fc.Panics)
